@@ -8,11 +8,12 @@ mod cmd_fun2core;
 mod cmd_rt;
 mod cmd_check;
 mod cmd_check_gen;
+mod cmd_fmt;
+mod gen_fun;
+mod gen_fun_ast;
 mod consts;
 mod pipe;
 mod cmd_genfun;
-mod gen_fun;
-mod gen_fun_ast;
 mod gen_fun_check;
 mod gen_fun_eval;
 mod gen_fun_mutate;
@@ -105,6 +106,7 @@ fn main() {
         "stages" => cmd_stages::cmd_stages(num(2, 1), num(3, 0) as usize, args.get(5..).unwrap_or(&[]), &mut *out),
         "fun2core" => cmd_fun2core::cmd_fun2core(num(2, 1), num(3, 0) as usize, args.get(5..).unwrap_or(&[]), &mut *out),
         "rt" => cmd_rt::cmd_rt(num(2, 1), num(3, 100) as usize, &mut *out),
+        "fmt" => cmd_fmt::cmd_fmt(num(2, 1), num(3, 0) as usize, args.get(5..).unwrap_or(&[]), &mut *out),
         c => { eprintln!("unknown command {c}"); std::process::exit(2); }
     }
     out.flush().unwrap();
